@@ -23,7 +23,7 @@ impl Prop for C12 {
         "exploration"
     }
     fn rule(&self) -> String {
-        "run kinds. lib: seeded valid writer history (any interleaving, all layer sets; one run in twelve with 65..300 files of which 1-3 stay open across dozens of others; now and then 17..1000 recipients) written by the library (one scaled run in eight: the same files in an archive of the independent writer, with its own ids, index form and empty blocks), then linear_extract (one scaled run in four: through a source that returns short reads) into a seeded subset of the names (empty, one, some, all, plus a name that is not in the archive), each chosen name with its own simulated sink under a seeded transfer schedule (1 byte, 1..n, Interrupted bursts): every chosen sink must hold exactly the model's bytes for that name (= what get_file returns, C01/C10), nothing else exists to receive data, the result is Ok. nomark / cutblock: the format model's foreign writer builds an archive (all layer sets) whose index is intact but whose block stream has no end-of-data marker, or is cut inside a content block - two times in three so that the byte right before the index, where the marker should be, is FE / 00 / 01 / FF (for a missing marker: a tiny last file whose SHA-256 ends with that byte); at production constants half of these runs put 4..7 MiB of a file that is not chosen after the small chosen one -: the archive opens, and linear_extract must return Err (the model first checks that the bytes following the blocks cannot be mistaken for a marker). sinkfail: the first chosen sink fails at its k-th write: the result must be Err. distinct_nontrivial = distinct (kind, variant, layers, subset class, interleaved, sink schedule kind, outcome) signatures.".into()
+        "run kinds. huge (run 0; thorough: runs 0..3): a content block of 2^32 + up to 32 MiB bytes between two small files, streamed through compression (alone / over encryption) at production constants; every name chosen, counting sinks: Ok, and every sink gets exactly its file's length. lib: seeded valid writer history (any interleaving, all layer sets; one run in twelve with 65..300 files of which 1-3 stay open across dozens of others; now and then 17..1000 recipients) written by the library (one scaled run in eight: the same files in an archive of the independent writer, with its own ids, index form and empty blocks), then linear_extract (one scaled run in four: through a source that returns short reads) into a seeded subset of the names (empty, one, some, all, plus a name that is not in the archive), each chosen name with its own simulated sink under a seeded transfer schedule (1 byte, 1..n, Interrupted bursts): every chosen sink must hold exactly the model's bytes for that name (= what get_file returns, C01/C10), nothing else exists to receive data, the result is Ok. nomark / cutblock: the format model's foreign writer builds an archive (all layer sets) whose index is intact but whose block stream has no end-of-data marker, or is cut inside a content block - two times in three so that the byte right before the index, where the marker should be, is FE / 00 / 01 / FF (for a missing marker: a tiny last file whose SHA-256 ends with that byte); at production constants half of these runs put 4..7 MiB of a file that is not chosen after the small chosen one -: the archive opens, and linear_extract must return Err (the model first checks that the bytes following the blocks cannot be mistaken for a marker). sinkfail: the first chosen sink fails at its k-th write: the result must be Err. distinct_nontrivial = distinct (kind, variant, layers, subset class, interleaved, sink schedule kind, outcome) signatures.".into()
     }
     fn assumptions(&self) -> Vec<String> {
         vec!["archives with an early or duplicated marker, reused ids or other hostile shapes are C08 inputs, not C12 ones".into()]
@@ -36,6 +36,24 @@ impl Prop for C12 {
     }
     fn make(&self, seed: u64, run: u64, tier: Tier) -> Case {
         let mut rng = Rng::derive(seed, "C12", run, "gen");
+        if run == 0 || (tier == Tier::Thorough && run < 4) {
+            // one content block of more than 2^32 bytes (period 251) between two small files, streamed through compression
+            // (alone / over encryption): every name chosen, sinks that only count
+            let layers = if run % 2 == 0 { L_COMP } else { L_COMP | L_ENC };
+            let cfg = ArcCfg { variant: "prodv".into(), layers, level: 1, recipients: usize::from(layers & 1 != 0), reader: 0, rng_seed: run + 21, key_seed: 12 };
+            let n = (1usize << 32) + rng.range(1, 32 << 20) as usize;
+            let ops = vec![
+                WOp::Add { name: Name::lit("a"), data: Data::Text { n: 3000, seed: 1 }, src: Src::exact() },
+                WOp::Start { f: 1, name: Name::lit("big") },
+                WOp::Append { f: 1, data: Data::Period { n, p: 251 }, src: Src { sched: Sched::Full, short_by: 0, extra: 0, stream: true } },
+                WOp::End { f: 1 },
+                WOp::Add { name: Name::lit("z"), data: Data::Text { n: 5000, seed: 2 }, src: Src::exact() },
+                WOp::Finalize,
+            ];
+            let mut case = Case::new("C12", cfg, ops);
+            case.params.insert("huge".into(), n as i64);
+            return case;
+        }
         let variant = pick_variant(&mut rng, tier);
         let vc = consts_of(variant);
         let mut c = vc.model_consts();
@@ -86,6 +104,33 @@ impl Prop for C12 {
         let mut v = Vec::new();
         let s = sut(&case.cfg.variant);
         let vc = s.consts();
+        if case.param("huge", 0) > 0 {
+            let n = case.param("huge", 0) as u64;
+            crate::seams::fired("content_block_longer_than_2_pow_32");
+            let sink = SimSink::new(&Sched::Full);
+            let w = s.write(&case.cfg, &case.ops, sink.clone());
+            if w.panic.is_some() || w.from_config_err.is_some() || w.results.iter().any(Result::is_err) {
+                v.push(Violation::new("workload-write-failed", "write", format!("writing the workload failed: panic {:?}, from_config {:?}, first failed call {:?}", w.panic, w.from_config_err, w.results.iter().find(|r| r.is_err()))));
+                return v;
+            }
+            let names = vec!["a".to_string(), "big".to_string(), "z".to_string()];
+            let out = s.linear_opts(Rc::new(sink.data()), &ReadCfg::for_cfg(&case.cfg), &names, &Sched::Full, None, false);
+            ctx.eval();
+            let cls = format!("huge|{}", case.cfg.layer_name());
+            if let Some(p) = &out.panic {
+                v.push(Violation::new("linear-panic", format!("huge|{}", super::repair::panic_class(p)), format!("linear_extract panicked: {p}")));
+            } else if !matches!(out.result, Some(Ok(()))) {
+                v.push(Violation::new("linear-failed", cls.clone(), format!("linear_extract on a valid archive holding a {n}-byte content block failed: {:?} {:?}", out.open, out.result)));
+            }
+            for (name, want) in [("a", 3000u64), ("big", n), ("z", 5000)] {
+                let got = out.lens.get(name).copied().unwrap_or(0);
+                if got != want {
+                    v.push(Violation::new("linear-wrong-bytes", cls.clone(), format!("sink of {name:?}: {got} bytes delivered, the file has {want}")));
+                }
+            }
+            ctx.sig(cls);
+            return v;
+        }
         let mode = case.param("mode", M_LIB);
         let model = model_of(&case.ops);
         let par = refmla::Params { chunk: vc.chunk as usize, block: vc.block as usize };
